@@ -25,7 +25,7 @@ func init() { core.Register(c12{}) }
 func (c12) ID() string    { return "C12" }
 func (c12) Level() string { return "fault_enumeration" }
 func (c12) Rule() string {
-	return "flip cases: small pristine databases built deterministically (variants: plain 1 file; rotated 3 files with overwrites, tombstones and a committed batch; unsealed batch tail; un-adopted finished merge so that hint file, marker and rewritten files are read by Open; a merge over ~10 files in which uniformly sized live and dead records alternate, damaged in the marker only (a flipped bit of the boundary id yields a smaller, non-zero id); 34 KiB variant with a 2-chunk record, thorough only); EVERY single-bit flip of EVERY byte of EVERY file (data, hint, marker) is applied to a fresh copy, then Open (every third refused Open is repeated, also under the other I/O type: a refusal must not turn into acceptance), full dump (ListKeys, Get of every key ever written, Fold), Close. damage cases: larger databases (200 KiB..1 MiB, multi-block records) with random 1..64-byte overwrites, truncation to every length of the last two blocks and random lengths elsewhere, a block replaced by garbage or zeros, bit flips in an older data file whose size is an exact multiple of 32 KiB, every bit of the length and type fields of seed-chosen chunk headers (block-filling chunks of multi-block records preferred), and live faults (overwrite; truncation under standard I/O) applied to the files of an OPEN database whose buffers were warmed by earlier reads, observed through Get/Fold on that handle; additionally, decided for the never-a-panic clause only: a block replaced by a copy of another block (intact chunks in the wrong place) and two files exchanged; the damaged file is also fed to the sequential reader directly. Oracle: a panic or process death is a violation; otherwise Open may fail, any Get/Fold may fail with an error other than key-not-found, or every key must map to its latest written value (deleted keys stay absent, no key that was never written appears); only when the damaged newest data file is byte for byte a possible torn-write image (truncation of that file, damage inside its last record, or a chunk of it whose header/declared length now reaches beyond the end of the file, which no reader can tell from the crash tail C03 requires recovery to accept) the mapping may instead be one of the prefix states S_j. Non-trivial: fault that hits a chunk header field or record header of a record that is live; distinct = (variant, file, byte, bit) resp. hash of the fault description"
+	return "flip cases: small pristine databases built deterministically (variants: plain 1 file; rotated 3 files with overwrites, tombstones and a committed batch; unsealed batch tail; un-adopted finished merge so that hint file, marker and rewritten files are read by Open; a merge over ~10 files in which uniformly sized live and dead records alternate, damaged in the marker only (a flipped bit of the boundary id yields a smaller, non-zero id); 34 KiB variant with a 2-chunk record, thorough only); EVERY single-bit flip of EVERY byte of EVERY file (data, hint, marker) is applied to a fresh copy, then Open (every third refused Open is repeated, also under the other I/O type: a refusal must not turn into acceptance), full dump (ListKeys, Get of every key ever written, Fold), Close. damage cases: larger databases (200 KiB..1 MiB, multi-block records) with random 1..64-byte overwrites, truncation to every length of the last two blocks and random lengths elsewhere, a block replaced by garbage or zeros, bit flips in an older data file whose size is an exact multiple of 32 KiB, every bit of the length and type fields of seed-chosen chunk headers (block-filling chunks of multi-block records preferred), and live faults (overwrite; truncation under standard I/O; the continuation block of a multi-block record replaced by the continuation block of another record whose first chunk has a different length) applied to the files of an OPEN database whose buffers were warmed by earlier reads, observed through Get/Fold on that handle; additionally, decided for the never-a-panic clause only: a block replaced by a copy of another block (intact chunks in the wrong place) and two files exchanged; the damaged file is also fed to the sequential reader directly. Oracle: a panic or process death is a violation; otherwise Open may fail, any Get/Fold may fail with an error other than key-not-found, or every key must map to its latest written value (deleted keys stay absent, no key that was never written appears); only when the damaged newest data file is byte for byte a possible torn-write image (truncation of that file, damage inside its last record, or a chunk of it whose header/declared length now reaches beyond the end of the file, which no reader can tell from the crash tail C03 requires recovery to accept) the mapping may instead be one of the prefix states S_j. Non-trivial: fault that hits a chunk header field or record header of a record that is live; distinct = (variant, file, byte, bit) resp. hash of the fault description"
 }
 func (c12) Assumptions() []string {
 	return []string{"torn-tail window as stated in the rule (narrowest oracle that does not contradict C03)", "CRC-32 collisions are not constructed"}
@@ -755,7 +755,33 @@ func c12Damage(c core.Case, cc c12Case, w *core.Worker) core.Result {
 			os.RemoveAll(cp)
 			continue
 		}
-		if cfg.FileIO == 0 && r.Chance(1, 2) {
+		// blocks that begin with a continuation chunk (Middle/Last) of a multi-block record
+		var cont []int
+		for bi := 1; bi*vfmt.Block+vfmt.Header <= len(logical); bi++ {
+			if t := logical[bi*vfmt.Block+6]; t == vfmt.Middle || t == vfmt.Last {
+				cont = append(cont, bi)
+			}
+		}
+		if len(cont) >= 2 && fi%3 == 0 {
+			// a misdirected block write: the continuation block of one record is replaced by
+			// the continuation block of another (every chunk intact, order plausible, but the
+			// stitched record has another length than its header says)
+			di, sj := cont[r.Intn(len(cont))], cont[r.Intn(len(cont))]
+			dl := int(logical[di*vfmt.Block+4]) | int(logical[di*vfmt.Block+5])<<8
+			sl := int(logical[sj*vfmt.Block+4]) | int(logical[sj*vfmt.Block+5])<<8
+			if di == sj || dl == sl {
+				db.Close()
+				os.RemoveAll(cp)
+				continue
+			}
+			end := min((sj+1)*vfmt.Block, len(logical))
+			blk := append([]byte{}, logical[sj*vfmt.Block:end]...)
+			fh, _ := os.OpenFile(path, os.O_WRONLY, 0644)
+			fh.WriteAt(blk, int64(di*vfmt.Block))
+			fh.Close()
+			desc = fmt.Sprintf("live stitch %s block %d (first chunk %d bytes) over block %d (first chunk %d bytes)", name, sj, sl, di, dl)
+			res.Add("live_stitched_continuation_blocks", 1)
+		} else if cfg.FileIO == 0 && r.Chance(1, 2) {
 			L := int64(r.Intn(int(size)))
 			os.Truncate(path, L)
 			desc = fmt.Sprintf("live truncate %s %d->%d", name, size, L)
